@@ -472,6 +472,21 @@ class Reproduce(Stream):
                     unjust[k] = [old[k], new[k], up["reqs_on"].get(k, [])]
             if unjust:
                 fails.append(("C05/upgrade-changes-unforced-pin/" + layout, {"released": rel, "changed": unjust}))
+            # the projects that stay pinned still are what they were: what their distributions (the universe they were first
+            # solved from, not the loaded solution) require unconditionally of the released project still holds for its new version
+            U2n = {GL.norm(n): {str(GL.V(v)): reqs for v, reqs in vs.items()} for n, vs in case["universe"].items()}
+            for k in sorted(set(old) & set(new)):
+                if k == rel or old[k] != new[k]:
+                    continue
+                for t in U2n.get(k, {}).get(str(GL.V(new[k])), []):
+                    q = GL.P(t)
+                    if GL.norm(q.name) != rel or (q.marker is not None and not q.marker.evaluate({"extra": ""})):
+                        continue
+                    if rel not in new:
+                        fails.append(("C05/released-project-dropped-though-a-pinned-project-requires-it/" + layout, {"released": rel, "requirer": "%s %s" % (k, new[k]), "requirement": t}))
+                    elif not q.specifier.contains(new[rel], prereleases=True):
+                        fails.append(("C05/released-project-upgraded-beyond-a-pinned-requirers-bound/" + layout,
+                                      {"released": rel, "now": new[rel], "requirer": "%s %s" % (k, new[k]), "requirement": t}))
             # the released project itself: if a higher version fits the requirements on it and asks for nothing the
             # old pins do not already give, keeping the old pin means it was not released at all
             if rel in old and rel in new and old[rel] == new[rel]:
@@ -650,12 +665,32 @@ class BazelUpdate(Stream):
                 return [("C05/bazel-update-raises/" + k, r[k])]
         if "again" not in r:
             return []
+
+        def pins(text):
+            """what the property speaks of - the pins, their hashes and their locations; the requirer annotations are C08's
+            and C06's matter (a requirer with two requirement lines on one project is printed twice by a solve and once after
+            a reload: the same set of requirers)"""
+            out, cur = [], None
+            for l in text.splitlines():
+                t = l.strip()
+                if not t:
+                    continue
+                if not l.startswith((" ", "#")):
+                    cur = [t.rstrip("\\").strip().split("  #")[0].strip(), [], []]
+                    out.append(cur)
+                elif cur is not None and t.startswith("--hash"):
+                    cur[1].append(t.rstrip("\\").strip())
+                elif cur is not None and t.startswith("#") and ("/" in t or "\\" in t) and not t.startswith("# via"):
+                    cur[2].append(t)
+            return out
+        for k in ("first", "again", "third", "upgrade", "fresh"):
+            r[k] = dict(r[k], text_full=r[k]["text"], text=pins(r[k]["text"]))
         if r["again"]["code"] != 0 or r["again"]["text"] != r["first"]["text"]:
-            fails.append(("C05/bazel-update-does-not-reproduce-its-solution", {"first": r["first"]["text"], "again": r["again"]["text"], "exit": r["again"]["code"]}))
+            fails.append(("C05/bazel-update-does-not-reproduce-its-solution", {"first": r["first"]["text_full"], "again": r["again"]["text_full"], "exit": r["again"]["code"]}))
         elif r["third"]["text"] != r["first"]["text"]:
-            fails.append(("C05/bazel-update-chain-differs", {"first": r["first"]["text"], "third": r["third"]["text"]}))
+            fails.append(("C05/bazel-update-chain-differs", {"first": r["first"]["text_full"], "third": r["third"]["text_full"]}))
         if r["upgrade"]["code"] == 0 and r["fresh"]["code"] == 0 and r["upgrade"]["text"] != r["fresh"]["text"]:
-            fails.append(("C05/bazel-upgrade-is-not-a-fresh-solve", {"upgrade": r["upgrade"]["text"], "fresh": r["fresh"]["text"]}))
+            fails.append(("C05/bazel-upgrade-is-not-a-fresh-solve", {"upgrade": r["upgrade"]["text_full"], "fresh": r["fresh"]["text_full"]}))
         return fails
 
     def shrink(self, case):
